@@ -15,6 +15,7 @@ HMAC of `encode_response_tbs(request MAC, unsignedOf reply, stub)`.
 -/
 import HickoryVerif.Model.Tsig
 import HickoryVerif.Proofs.C13Tbs
+import HickoryVerif.Proofs.C13
 
 namespace HickoryVerif.C13
 open HickoryVerif HickoryVerif.Tsig
@@ -116,5 +117,54 @@ theorem request_verifies {req t : Bytes} {rdok : Bool} {s : SigRec} {hd : Hdr}
   rw [e1, emitHdr_take10 w hh hz, tsigVars_congr hname halg htime hfudge herr hother,
     List.drop_take]
   simp only [List.append_assoc]
+
+/-! ### consequences of the MAC oracle assumption -/
+
+/-- The assumption about HMAC (trusted base): the verification oracle of a key accepts exactly
+the full-length tag of exactly the bytes it was computed over, and — the idealisation of
+unforgeability that can be *stated* — different byte strings have different tags. -/
+structure MacOracle (sg : Signer) (tag : Bytes → Bytes) : Prop where
+  iff : ∀ t m, sg.macOK t m = true ↔ m = tag t
+  len : ∀ t, (tag t).length = outLen sg.alg
+  inj : ∀ t₁ t₂, tag t₁ = tag t₂ → t₁ = t₂
+
+/-- A MAC of any other length than the algorithm's full output is never accepted (shorter: the
+explicit length check; longer: the oracle compares whole tags). -/
+theorem truncated_mac_rejected {sg : Signer} {tag : Bytes → Bytes} (O : MacOracle sg tag)
+    {buf : Bytes} {prev : Option Bytes} {first rdok : Bool} {v : Verified}
+    (h : verifyMessageByte sg buf prev first rdok = .ok v) : v.mac.length = outLen sg.alg := by
+  obtain ⟨tbs, r, _, _, _, _, hm, _, hv⟩ := verifyMessageByte_ok h
+  rw [hv]; simp only
+  rw [(O.iff _ _).mp hm, O.len]
+
+/-- **A modification inside the authenticated region is rejected.**  `b₁` verifies; `b₂` carries
+the same MAC but differs from `b₁` in some octet between the header and the TSIG RR: then `b₂`
+does not verify (under the MAC oracle assumption).  The same holds for the flags octets, the
+four counts, the Original ID and the TSIG variables — every item listed by `tbs_injective`. -/
+theorem mutation_rejected {sg : Signer} {tag : Bytes → Bytes} (O : MacOracle sg tag)
+    {b₁ b₂ : Bytes} {prev : Option Bytes} {first rd₁ rd₂ : Bool} {v₁ : Verified}
+    {t₁ : Bytes} {s₁ : SigRec}
+    (w₁ : Bytes.WF b₁) (w₂ : Bytes.WF b₂)
+    (h₁ : verifyMessageByte sg b₁ prev first rd₁ = .ok v₁)
+    (hs₁ : signedBitmessageToBuf b₁ prev first rd₁ = .ok (t₁, s₁))
+    (hmac : ∀ t₂ s₂, signedBitmessageToBuf b₂ prev first rd₂ = .ok (t₂, s₂) →
+      s₂.data.mac = s₁.data.mac)
+    (hdiff : ∃ i, 12 ≤ i ∧ i < s₁.start ∧ b₁[i]? ≠ b₂[i]?) :
+    ∀ v₂, verifyMessageByte sg b₂ prev first rd₂ ≠ .ok v₂ := by
+  intro v₂ h₂
+  obtain ⟨t₁', r₁, e₁, _, _, _, m₁, _, _⟩ := verifyMessageByte_ok h₁
+  obtain ⟨t₂, r₂, e₂, _, _, _, m₂, _, _⟩ := verifyMessageByte_ok h₂
+  rw [hs₁] at e₁
+  simp only [Outcome.ok.injEq, Prod.mk.injEq] at e₁
+  obtain ⟨rfl, rfl⟩ := e₁
+  have hm := hmac _ _ e₂
+  have a := (O.iff _ _).mp m₁
+  have b := (O.iff _ _).mp m₂
+  rw [hm, a] at b
+  have ht : t₁ = t₂ := O.inj _ _ b
+  subst ht
+  obtain ⟨_, _, _, _, _, _, _, _, _, _, _, _, hag, _⟩ := tbs_injective w₁ w₂ hs₁ e₂
+  obtain ⟨i, h1, h2, h3⟩ := hdiff
+  exact h3 (hag i h1 h2)
 
 end HickoryVerif.C13
